@@ -501,7 +501,7 @@ class TunnelCommunity(Community):
 
         circuit_to_remove.close(additional_info)
 
-        if not remove_now or self.settings.remove_tunnel_delay > 0:
+        if not remove_now:
             await sleep(self.settings.remove_tunnel_delay)
 
         circuit = self.circuits.pop(circuit_id, None)
@@ -518,7 +518,7 @@ class TunnelCommunity(Community):
         if destroy:
             self.destroy_relay(circuit_id, reason=destroy)
 
-        if not remove_now or self.settings.remove_tunnel_delay > 0:
+        if not remove_now:
             await sleep(self.settings.remove_tunnel_delay)
 
         self.logger.info("Removing relay %d %s", circuit_id, additional_info)
@@ -535,7 +535,7 @@ class TunnelCommunity(Community):
         if exit_socket_to_destroy and destroy:
             self.destroy_exit_socket(exit_socket_to_destroy, reason=destroy)
 
-        if not remove_now or self.settings.remove_tunnel_delay > 0:
+        if not remove_now:
             await sleep(self.settings.remove_tunnel_delay)
 
         self.logger.info("Removing exit socket %d %s", circuit_id, additional_info)
